@@ -73,10 +73,12 @@ claim("C05",
 claim("C10",
       "Theorems, for every handler: for ANY argument list a single-operation command is either refused with no event at all or is exactly one handler call (no partial execution); "
       "every strict prefix of the required arguments of every valid request is refused; odd or empty key/value lists (MSET MSETNX HMSET CONFIG SET) and a score without member (ZADD) "
-      "are refused; a non-positive SET expiry is refused in any context. Correspondence: every command of the grammar x every position omitted / null / non-numeric, overflowing, "
+      "are refused; a non-positive SET expiry is refused in any context; the SET option parser accepts EXACTLY the option grammar (so every repeated / combined exclusive option, "
+      "bad operand and unknown word is refused); a null or other non-value element anywhere in the part of ANY argument list a command reads is refused (all 39 request forms); a token "
+      "that is not an int64 numeral / float / score bound where one is required, and a numeral outside the accepted expiry range, is refused for ANY argument list. Correspondence: every command of the grammar x every position omitted / null / non-numeric, overflowing, "
       "fractional tokens (swept above the int64-safe expiry limits incl. products that wrap to positive) x pair lists cut odd x every SET option clash, enumerated completely, each "
       "followed by PING/ECHO and GET to show the connection is unaffected; model and implementation must both reject with zero calls.",
-      CONN_TB + "Null / non-numeric / SET-clash rejections are established on the model by exhaustive correspondence enumeration and concrete vm_compute examples, not yet by a general theorem per position.",
+      CONN_TB + "ZRANGE and SCAN ignore unknown option words (the code's behaviour, mirrored); only SET has a completeness theorem ('accepts exactly the grammar'), the other commands have position-wise refusal theorems.",
       "Coq theorems (no partial execution; missing/dangling arguments refused) + exhaustive malformation enumeration against the real loop")
 MULTI_TB = CONN_TB + "Several connections are modelled as request-level interleavings over one shared server and handler state (Multi.mstep); the command lock of the code makes that the real granularity. "
 claim("C07",
@@ -119,19 +121,23 @@ claim("C12",
       "Theorems (the derived executors of the model over the Redis reference primitives, for ALL databases and argument values): GETRANGE/SUBSTR never panic and reply with Redis' "
       "clamped substring for every length/start/end in int64; ZREVRANGE is exactly the descending-order slice with member/score pairs intact (index reflection proved over all of Z); "
       "INCR/DECR/INCRBY/DECRBY store and reply old+delta iff the value is a canonical int64 numeral and the sum stays in int64, else error and nothing stored; MSETNX is all-or-nothing; "
-      "MGET replies in request order; STRLEN, APPEND, HKEYS/HVALS (same pairs, same order)/HLEN, HEXISTS/HSTRLEN, SCARD, SISMEMBER, ZCARD, PING, ECHO, CONFIG SET/GET (request order, "
+      "MGET / HMGET reply in request order (nil for missing); MSET / HMSET store the last value per key / field; ZREVRANGEBYSCORE is the descending list inside the bounds with LIMIT and "
+      "WITHSCORES applied to that order, options in any order; STRLEN, APPEND, HKEYS/HVALS (same pairs, same order)/HLEN, HEXISTS/HSTRLEN, SCARD, SISMEMBER, ZCARD, PING, ECHO, CONFIG SET/GET (request order, "
       "last stored value). Correspondence: framework + bundled example store through the real loop vs the model: GETRANGE lengths 0..6 x start,end -9..9 and ZREVRANGE sizes 0..5 x "
       "start,stop -7..7 with/without scores (exhaustive), ZREVRANGEBYSCORE LIMIT grids, counters at int64 boundaries and on non-integers, random programs with final-state probes.",
-      STORE_TB + "MSET/HMSET/HMGET/ZREVRANGEBYSCORE have no general theorem yet (correspondence only).",
+      STORE_TB + "HKEYS/HVALS order is the reference's insertion order (the Go map order is arbitrary; compared as sets).",
       "Coq theorems (derived executors over reference primitives = Redis semantics) + exhaustive index grids against framework + example store")
 claim("C18",
-      "Theorems about the reference model the example server is compared with, for EVERY database and operation: every primitive operation (hence every program) preserves the invariant "
-      "- keys unique, one entry per hash field / set member / sorted-set member, sorted sets in non-decreasing score order, no empty container stored; values come back byte for byte "
-      "and other keys are untouched; RPUSH/LPUSH/LRANGE/LPOP order; EXISTS/DEL/RENAME (moves; onto itself keeps). Correspondence: the bundled example server through the real connection "
-      "loop vs the model on every program of length 1 and 2 (and sampled / all of length 3) per data type over a small pool, random programs to length 40, mixed-type programs, each "
-      "followed by a final-state probe of every pool key.",
-      STORE_TB + "The example store's Go code is not modelled function by function: the tie is the differential run. Two reply shapes the handler interface cannot express are recorded findings.",
-      "Coq invariant proof over all programs of the reference model + exhaustive short-program differential runs against the example server")
+      "Theorems: Store.sprim is a function-by-function model of the bundled example store (slice-backed List / Set / ZSet with their loops, map-backed Hash and record table); "
+      "on EVERY well-formed database and EVERY call whose key is absent or holds the command's data type it computes exactly the reply and the next database of the Redis reference "
+      "Redis.dprim (C18_store_refines_reference; lifted to programs). About the reference, for EVERY database and operation: every primitive operation (hence every program) preserves "
+      "the invariant - keys unique, one entry per hash field / set member / sorted-set member, sorted sets in non-decreasing score order, no empty container stored; values come back "
+      "byte for byte and other keys are untouched; RPUSH/LPUSH/LRANGE/LPOP order; EXISTS/DEL/RENAME (moves; onto itself keeps). Correspondence: the bundled example server through the "
+      "real connection loop vs the store model on every program of length 1 and 2 (and sampled / all of length 3) per data type over a small pool, random programs to length 40, "
+      "mixed-type programs, infinite scores, each followed by a final-state probe of every pool key.",
+      STORE_TB + "Modelled, not verified: the Go code of examples/go-redisd/server (tie = the differential run against Store.sprim); expiry (EXPIRE/TTL) and SCAN's cursor are not "
+      "modelled. Two reply shapes the handler interface cannot express are recorded findings.",
+      "Coq refinement proof (example-store model = Redis reference on typed calls) + invariant proof over all programs + exhaustive short-program differential runs against the example server")
 LIFE_TB = TB + ("Lifecycle.v models Start/Stop/Restart, the accept loops, the connection goroutines, the registry and the two WaitGroups of redis/server.go as a transition system "
                 "whose schedules are arbitrary label lists; its executable scheduler (life_model, extracted) is compared with a real server over loopback sockets. ")
 claim("C15",
